@@ -74,6 +74,12 @@ impl CompressionCodec {
             CompressionCodec::Snappy => {
                 // Each compressed block is followed by the 4-byte, big-endian CRC32
                 // checksum of the uncompressed data in the block.
+                if block.len() < 4 {
+                    return Err(AvroError::ParseError(format!(
+                        "Snappy block of {} bytes is too short to hold its CRC32",
+                        block.len()
+                    )));
+                }
                 let crc = &block[block.len() - 4..];
                 let block = &block[..block.len() - 4];
 
